@@ -54,6 +54,17 @@ def gcda_sequences(rng, singles, merged, gcno=None):
             seqs.append(("mismatch:foreign_function", [d1, ff] if rng.random() < 0.5 else [ff, d1]))
         for (wi, _old) in ids[:3]:
             seqs.append(("mismatch:ident", [G.put_word(d1, wi, G.absent_ident(known))]))
+    # a counter record whose length word announces fewer / more counters than the function has measured arcs, with the
+    # records of the following functions behind it: the computation fails
+    try:
+        crecs = G.counter_records(d1)
+    except Exception:
+        crecs = []
+    for (wi, ln) in crecs[:2]:
+        for delta in (-2 * rng.randrange(1, 4), -1, 2 * rng.randrange(1, 4)):
+            v = ln + delta
+            if v >= 0 and v // 2 != ln // 2:
+                seqs.append(("mismatch:arcs_length%+d" % delta, [G.put_word(d1, wi, v)]))
     # the version word differs from the gcno's only in the release-status character: not the same version
     for ch in STATUS_CHARS[:2] + [rng.choice(STATUS_CHARS[2:])]:
         m = with_status(d1, ch)
@@ -208,6 +219,8 @@ def laws(chk, src, seqs, results, dist):
                 if "err" not in r:
                     viol("a gcda record for a function the gcno does not describe must make the computation fail (never accepted with its counts)"
                          if law in ("mismatch:foreign_function", "mismatch:ident") else
+                         "a counter record whose length does not match the number of measured arcs of its function must make the computation fail"
+                         if law.startswith("mismatch:arcs_length") else
                          "a gcda whose version or checksums do not match the gcno must make the computation fail", law=law, gcdas=[d.hex() for d in ds], impl=r)
                 continue
             if "ok" not in r:
@@ -369,7 +382,7 @@ def run(chk):
     chk.cov["rule"] = ("gcno sources: the 8 small checked-in fixtures (LLVM 4.2, GCC 6-10) and big-endian twins of the three LLVM ones, synthesised CFGs (parallel arcs, fake/tree flags, multi-block lines, "
                        "counters from a boundary pool up to 2^63) in versions *204 and *804, and programs generated from a seeded C grammar compiled with clang-14 --coverage (gcov format version rotating over 408*, 407*, 402*, 409*, 406*, 404*; every second program also as a big-endian twin) and "
                        "run 1-3 times (one gcda per run plus the runtime-merged one); per source the gcda lists: none, one, 2 and 3 copies, permutations with repetitions, merged, "
-                       "and lists containing a gcda with a flipped version / checksum / function-checksum word at a random position, the gcda stamp word replaced by 0, 1, 2^31, 2^32-1, the release-status character of the version word replaced by e / p / other bytes on the gcda side and on the gcno side, and (for the fixtures and some programs) the gcno stamp set to 0 against the original gcda (rejected) and against a gcda with stamp 0 (accepted); every law of the property is evaluated on "
+                       "and lists containing a gcda with a flipped version / checksum / function-checksum word at a random position, the gcda stamp word replaced by 0, 1, 2^31, 2^32-1, the length word of a counter record changed by -6..+6 words, the release-status character of the version word replaced by e / p / other bytes on the gcda side and on the gcno side, and (for the fixtures and some programs) the gcno stamp set to 0 against the original gcda (rejected) and against a gcda with stamp 0 (accepted); every law of the property is evaluated on "
                        "Gcno::compute's results, and the Gallina model is run on the same bytes (full result equality); non-trivial = k-copies cases with a non-zero count and "
                        "permutation groups with at least two orders")
     chk.cov["trusted_base"] = ["Coq kernel; vm_compute for the correspondence", "impl_run harness (hex transport, sorting of the result vector)",
